@@ -67,6 +67,8 @@ def main(argv=None):
   ap.add_argument('prop')
   ap.add_argument('--tier', default=os.environ.get('VERIF_TIER', 'quick'))
   ap.add_argument('--replay')
+  ap.add_argument('--case-only', action='store_true',
+                  help='with --replay: run only the recorded case of the shard')
   ap.add_argument('--jobs', type=int,
                   default=int(os.environ.get('VERIF_JOBS', '16')))
   ap.add_argument('--only', help='run only shards whose name contains this')
@@ -81,7 +83,9 @@ def main(argv=None):
   if args.replay:
     rp = json.load(open(args.replay))
     spec = dict(rp['spec'])
-    spec['only_case'] = rp.get('case')
+    # the whole shard is re-run by default: generators draw from one stream
+    # per shard and several monitors depend on earlier calls of the process.
+    spec['only_case'] = rp.get('case') if args.case_only else None
     tier, seed = rp['tier'], rp['seed']
     specs = [spec]
   else:
